@@ -64,6 +64,11 @@ void SoPlexBase<R>::_optimizeRational(volatile bool* interrupt)
       spx_free(_realLP);
       _realLP = &_solver;
       _isRealLPLoaded = true;
+
+      // the scaler of a persistently scaled LP works on the scaling exponents stored in the LP object it was set up
+      // on; that was the copy released above
+      if(_isRealLPScaled && _scaler != nullptr)
+         _scaler->attach(*_realLP);
    }
    // during the rational solve, we always store basis information in the basis arrays
    else if(_hasBasis)
